@@ -182,7 +182,14 @@ partial def loop (h : IO.FS.Stream) (d : DS) : IO Unit := do
                           subprotocols := if f "sp" == "nil" then none else some (hexItems (f "sp")),
                           originOk := f "origin" != "0",
                           respHeader := WsH.canonHeader (kvList (f "rh")) }
-    let r : WsH.Req := { method := unhex (if f "um" == "" || f "um" == "-" then f "m" else f "um"), header := WsH.canonHeader (kvList (f "hd")) }
+    -- the first key header carries the value the Upgrader saw (uk=x<hex>), when the harness reports one
+    let hd0 := WsH.canonHeader (kvList (f "hd"))
+    let uk := f "uk"
+    let hd1 := if uk.startsWith "x" then
+        (hd0.foldl (fun (acc : List (List UInt8 × List UInt8) × Bool) kv =>
+          if !acc.2 && kv.1 == WsH.s "Sec-Websocket-Key" then (acc.1 ++ [(kv.1, unhex (uk.drop 1).toString)], true) else (acc.1 ++ [kv], acc.2)) ([], false)).1
+      else hd0
+    let r : WsH.Req := { method := unhex (if f "um" == "" || f "um" == "-" then f "m" else f "um"), header := hd1 }
     match WsH.upgradeDecision (fun _ => sha) u r with
     | .error e => IO.println s!"Q err={e.code} status={e.status}"; loop h d
     | .ok (hd, c) =>
